@@ -198,3 +198,28 @@ func BenchmarkWriter_Write(b *testing.B) {
 		}
 	})
 }
+
+func TestWriter_Relink(t *testing.T) {
+	w := NewWriter()
+	defer w.Close()
+
+	r := NewReader()
+	defer r.Close()
+
+	w.Link(r)
+	require.Equal(t, 1, w.Write(New(types.NewString("first"))))
+	<-r.Read()
+
+	// The link is removed while the first request is unanswered: the request is dropped.
+	w.Unlink(r)
+	require.Equal(t, ErrDroppedPacket, (<-w.Receive()).Payload())
+
+	w.Link(r)
+	require.Equal(t, 1, w.Write(New(types.NewString("second"))))
+	<-r.Read()
+
+	// The late answer to the first request must not be taken for the answer to the second.
+	require.False(t, r.Receive(New(types.NewString("answer to first"))))
+	require.True(t, r.Receive(New(types.NewString("answer to second"))))
+	require.Equal(t, types.NewString("answer to second"), (<-w.Receive()).Payload())
+}
